@@ -113,14 +113,20 @@ def pollardPowers (primes : List Nat) (exps : List Nat) : List Nat :=
   | ps, [] => ps
   | [], _ => []
 
+/-- Python truthiness of the constructor argument (`if bound:`): `None` AND `0` take the default
+branch; every other (positive) bound is a user bound. -/
+def pollardUserBound : Option Nat → Option Nat
+  | some 0 => none
+  | b => b
+
 def pollardProduct (bound : Option Nat) (exps : List Nat) : Nat :=
-  match bound with
+  match pollardUserBound bound with
   | some b => fastProduct (pollardPowers (sieve b) exps)
   | none => fastProduct (pollardPowers (sieve (2 ^ 20)) exps)
 
 /-- the exponents the documentation prescribes. -/
 def pollardExpsDocumented (bound : Option Nat) : List Nat :=
-  match bound with
+  match pollardUserBound bound with
   | some b => (sieve b).map (fun p => floorLog p b)
   | none => ((sieve (2 ^ 20)).take 150).map (fun p => floorLog p (2 ^ 64))
 
